@@ -48,6 +48,8 @@ REGISTRY.update(SIGS)
 ARG_SHAPES = [
     "1", "'s'", "true", "null", "@", "@.a", "@[0]", "$.a[0]", "@.*", "@..a", "@[0:1]", "@['a','b']",
     "@.a == 1", "@.a && @.b", "!@.a", "(@.a)", "f_v()", "f_l()", "f_n()", "fv_v(1)", "!f_l()",
+    # a parenthesised comparand at the start of an argument: outside the grammar in every position
+    "(@.a) == 1", "(1) < 2",
 ]
 
 
